@@ -193,12 +193,11 @@ func expected(codes map[string]*compiler.Code, env *rt.Env) map[string]result {
 	return out
 }
 
-// finePoints: every VM instruction of the main task is a scheduling point (thorough tier).
-var finePoints bool
 
 type caseT struct {
 	H        history
-	CancelAt int // stale cancel for invocation CancelAt's context (-1 = none)
+	CancelAt int  // stale cancel for invocation CancelAt's context (-1 = none)
+	Fine     bool `json:"fine_points,omitempty"` // every VM instruction of the main task is a scheduling point
 }
 
 func (c caseT) name() string {
@@ -207,7 +206,7 @@ func (c caseT) name() string {
 
 func (c caseT) scenario(exp map[string]result) *dsched.Scenario {
 	// the overflow kinds execute about a thousand instructions per invocation: coarse points for them
-	fine := finePoints && !contains(c.H, "callover") && !contains(c.H, "overflow")
+	fine := c.Fine && !contains(c.H, "callover") && !contains(c.H, "overflow")
 	envs := []func(x *dsched.Exec, st any){}
 	if c.CancelAt >= 0 {
 		envs = append(envs, func(x *dsched.Exec, sti any) {
@@ -393,11 +392,10 @@ func Check(r *ev.Run, replay string) {
 		alpha = []string{"a", "b", "err0", "err2", "panic", "cancel", "deff", "callf", "callferr", "callfail", "callpanic", "callimport", "callover", "overflow"}
 		maxLen, bound, limit = 3, 2, 30000
 	}
-	finePoints = r.Thorough()
 	hs := histories(alpha, maxLen)
 	if r.Thorough() {
-		// length 4 over the smaller alphabet, one deviation
-		for _, h := range histories([]string{"a", "err0", "panic", "cancel", "deff", "callf", "callfail", "callpanic", "callimport"}, 4) {
+		// length 4 over a smaller alphabet, one deviation
+		for _, h := range histories([]string{"a", "err0", "cancel", "deff", "callf", "callfail"}, 4) {
 			if len(h) == 4 {
 				hs = append(hs, h)
 			}
@@ -416,15 +414,15 @@ func Check(r *ev.Run, replay string) {
 				continue // quick: at most one invocation that is cancelled by its own context
 			}
 		}
-		cases = append(cases, caseT{h, -1})
+		// thorough: the histories of one and two invocations with every instruction as a scheduling point
+		// and two deviations; the longer ones with the quick tier's points and one deviation
+		fine := r.Thorough() && len(h) <= 2
+		cases = append(cases, caseT{h, -1, fine})
 		for i := 0; i+1 < len(h); i++ {
 			if h[i] != "cancel" {
-				cases = append(cases, caseT{h, i})
+				cases = append(cases, caseT{h, i, fine})
 			}
 		}
-	}
-	if r.Thorough() && maxLen == 4 {
-		// length-4 histories: bound 1 (bound 2 for lengths <= 3)
 	}
 	r.Sharded(16, func(shard, n int) {
 		total, points, nc := 0, 0, 0
@@ -433,15 +431,8 @@ func Check(r *ev.Run, replay string) {
 				continue
 			}
 			b := bound
-			if len(c.H) >= 4 {
+			if len(c.H) >= 3 {
 				b = 1
-			}
-			if b > 1 && len(c.H) >= 3 {
-				for _, k := range c.H {
-					if k == "callfail" || k == "callpanic" || k == "callimport" || k == "callover" {
-						b = 1 // thorough: the histories of three invocations with one of the late kinds get one deviation
-					}
-				}
 			}
 			st := dsched.Explore(c.scenario(exp), b, limit)
 			nc++
@@ -474,7 +465,7 @@ func Check(r *ev.Run, replay string) {
 	r.Set("alphabet", alpha)
 	r.Set("max_history_length", maxLen)
 	r.Set("deviation_bound", bound)
-	r.Set("rule", fmt.Sprintf("every history of 1..%d invocations over %v on one VM (RunCode of 8 programs with normal / error / recovered-panic / cancelled outcomes, Call of a function fetched from the VM) x (no stale cancel | cancel of the context of an earlier invocation after it returned), every schedule with at most %d deviations of canceller, watcher goroutines and the main task (scheduling points: every VM instruction in the thorough tier; loop back-edges, calls and every 4th instruction in the quick tier); oracle: each invocation returns what it returns on a fresh VM; plus the plain histories, executed without scheduling: every history of 2..3 (thorough 4) invocations over programs whose functions update their own globals, programs run with differing host-supplied globals, each both as the very same code object and as a fresh compilation of the same source, and calls of a function fetched from the VM", maxLen, alpha, bound))
+	r.Set("rule", fmt.Sprintf("every history of 1..%d invocations over %v on one VM (RunCode of 8 programs with normal / error / recovered-panic / cancelled outcomes, Call of a function fetched from the VM) x (no stale cancel | cancel of the context of an earlier invocation after it returned), every schedule with at most %d deviations of canceller, watcher goroutines and the main task (scheduling points: loop back-edges, calls and every 4th instruction; thorough: every VM instruction and two deviations for the histories of one and two invocations, the whole alphabet at length 3 and six kinds at length 4 with one deviation); oracle: each invocation returns what it returns on a fresh VM; plus the plain histories, executed without scheduling: every history of 2..3 (thorough 4) invocations over programs whose functions update their own globals, programs run with differing host-supplied globals, each both as the very same code object and as a fresh compilation of the same source, and calls of a function fetched from the VM", maxLen, alpha, bound))
 }
 
 func signature(c caseT, v string) string {
